@@ -58,12 +58,17 @@ class Path:
         if self.idx < len(self.trace):
             ch = self.trace[self.idx]
             self.idx += 1
+            if ch == -1:
+                # recorded dead end (no feasible option when this point was first explored): same outcome on replay
+                raise PathEnd('no feasible branch')
         else:
             feas = []
             for i in range(n):
                 if conds is None or self._feasible(conds[i]):
                     feas.append(i)
             if not feas:
+                self.trace.append(-1)
+                self.idx += 1
                 raise PathEnd('no feasible branch')
             ch = feas[0]
             for alt in feas[1:]:
@@ -677,8 +682,10 @@ class Interp:
                 for vnode in node.values:
                     try:
                         t = z3.simplify(self.truth(self.eval(vnode, frame)))
-                    except (OutOfSubset, StaleContract, SymRaise):
-                        # ill-formed only if this operand can be reached at all
+                    except (OutOfSubset, StaleContract, SymRaise, PathEnd):
+                        # ill-formed / dead only if this operand can be reached at all: under the guards pushed for the
+                        # earlier operands the path condition may be contradictory, then the operand is unreachable and
+                        # the result is decided by the earlier operands
                         if pushed and not self.path._feasible(z3.BoolVal(True)):
                             break
                         raise
